@@ -11,7 +11,7 @@
 //                  with the HTTP 101 response in the same stream).  Oracle: delivered messages / pongs / close frames
 //                  equal the generator's list and the whole event log is identical for every segmentation.
 //  hostile   (iii) every first byte (fin, RSV, opcode) x mask bit x length codes {0,1,125,126,127} x extended lengths
-//                  {0,125,126,max,max+1,3*max,65535,65536,2^31,2^32,2^63-1,2^63,2^64-1} x 3 read patterns x 2 fillers.
+//                  {0,125,126,max,max+1,3*max,65535,65536,2^31,2^32,2^63-1,2^63,2^64-1} (max=256) x 3 read patterns x 2 fillers.
 //  deep / fragflood: never-completable headers and endless never-final fragments fed until the retained bytes exceed
 //                  2*max+14 (or the bound is respected).
 //  utf8      all byte strings of length 1-2, all strings of length 3-4 over a 27-byte boundary alphabet, single frame and
@@ -183,8 +183,8 @@ static int evalSeg(Ctx &cx, SeqCase &sc, const std::string &spec)
 }
 
 // ------------------------------------------------------------------ hostile sets
-static const uint64_t EXT126[] = {0, 125, 126, 1024, 1025, 3072, 65535};
-static const uint64_t EXT127[] = {0, 125, 126, 1025, 3072, 65535, 65536, 1ull << 31, 1ull << 32, (1ull << 63) - 1, 1ull << 63, ~0ull};
+static const uint64_t EXT126[] = {0, 125, 126, 256, 257, 768, 65535};
+static const uint64_t EXT127[] = {0, 125, 126, 257, 768, 65535, 65536, 1ull << 31, 1ull << 32, (1ull << 63) - 1, 1ull << 63, ~0ull};
 static int evalHostileSet(Ctx &cx, char ep, uint8_t b0, bool masked)
 {
   int v = 0;
@@ -371,6 +371,7 @@ static void enumerate(const vr::Shard &sh, vr::Report &r, const vr::Args &args)
   cx.S.init();
   cx.C.init();
   std::string only = args.get("only");
+  const bool pairsPart = args.get("mode") == "pairs"; // plain -O2 part: only the big cut-pair product of family seg
   Bounds B = boundsFor(cx.thorough);
   r.rule = "frame: RFC-valid frame (round-trip demanded); seg: segmentation with >=1 cut of a stream carrying >=1 message or ping; hostile: RSV=0, known opcode, "
            "extended length code; utf8: text containing a byte >= 0x80; gate: sequence with a close frame sent and a later/earlier app send";
@@ -383,7 +384,7 @@ static void enumerate(const vr::Shard &sh, vr::Report &r, const vr::Args &args)
                          (cx.thorough ? "+pairs" : "");
   r.bounds["seg.lengths"] = "4 placements x len {125,126,127,65535,65536}: single cuts " + std::string(cx.thorough ? "all" : "all if stream<=4096 else within 15 bytes after a frame start / 2 before its end") +
                             ", pairs over those window positions, bytewise " + (cx.thorough ? "always" : "if stream<=4096");
-  r.bounds["hostile"] = "byte0 0-255 x mask x lc {0,1,125} + lc126 x {0,125,126,1024,1025,3072,65535} + lc127 x {0,125,126,1025,3072,65535,65536,2^31,2^32,2^63-1,2^63,2^64-1} x 3 read modes x filler {00,81}; max=1024, 3136 filler bytes";
+  r.bounds["hostile"] = "byte0 0-255 x mask x lc {0,1,125} + lc126 x {0,125,126,256,257,768,65535} + lc127 x {0,125,126,257,768,65535,65536,2^31,2^32,2^63-1,2^63,2^64-1} x 3 read modes x filler {00,81}; max=256, 832 filler bytes in 128-byte reads";
   r.bounds["utf8"] = "all strings len 1-2 (256-byte alphabet), len 3-4 over 27 boundary bytes; all 2-fragment splits" + std::string(cx.thorough ? "" : " (len 4: single frame only)");
   r.bounds["gate"] = std::string("all op sequences of length <= ") + (cx.thorough ? "5" : "4") + " over TBPC (app) ctpxu (peer)";
   r.notes.push_back(std::string("client configurable maximum: ") + (cx.C.hasConfigurableMax() ? "setMaxFrameSize present (1024 used)" : "none - judged against the library's server default 16 MiB in deep/fragflood"));
@@ -411,7 +412,9 @@ static void enumerate(const vr::Shard &sh, vr::Report &r, const vr::Args &args)
     sh.end();
     r.counters["units"]++;
   };
-  auto want = [&](const char *f) { return only.empty() || only == f; };
+  auto want = [&](const char *f) { return (only.empty() || only == f) && (!pairsPart || std::string(f) == "seg"); };
+  if (pairsPart)
+    r.notes.push_back("this part (no sanitizers, -O2) runs only the cut-pair product for sequences of >=2 messages; every other family, all single cuts, byte-at-a-time and the pairs of <=1-message sequences run in the ASan+UBSan part C18_codec");
 
   // (i)
   if (want("frame"))
@@ -522,11 +525,12 @@ static void enumerate(const vr::Shard &sh, vr::Report &r, const vr::Args &args)
               };
               for (char ep : {'s', 'c'})
               {
-                unit([&] { return head(ep, 0) + "?A"; });
-                if (pairs)
+                if (!pairsPart)
+                  unit([&] { return head(ep, 0) + "?A"; });
+                if (pairs && (pairsPart == (nmsg >= 2)))
                   unit([&] { return head(ep, 0) + "?P"; });
               }
-              if (nmsg <= 1)
+              if (nmsg <= 1 && !pairsPart)
               {
                 unit([&] { return head('c', 1) + "?A"; });
                 if (cx.thorough)
@@ -564,7 +568,7 @@ int main(int argc, char **argv)
     return v < 0 ? 2 : (r.violation_total ? 1 : 0);
   }
   double deadline = double(args.getInt("deadline", 0));
-  vr::run_sharded(args, "C18_codec", "exploration", 240.0, deadline > 30 ? deadline - 15 : deadline,
+  vr::run_sharded(args, args.get("mode") == "pairs" ? "C18_seg_pairs" : "C18_codec", "exploration", 240.0, deadline > 30 ? deadline - 15 : deadline,
                   [&](const vr::Shard &sh, vr::Report &r) { enumerate(sh, r, args); });
   return 0;
 }
